@@ -159,4 +159,16 @@ def t_urdf_generator_roundtrip():
                     assert (jm.lower, jm.upper) == ((float(js["lim"][0]), float(js["lim"][1])) if js["t"] == "revolute" else (None, None))
             assert (m.root == "world") == bool(spec["world"])
     assert len(c13.slot_patterns(3)) == 33 and len(c13.slot_patterns(8)) == 163
+    # the thinner quick schedule still meets every origin kind, axis kind and type for every n, and all 40 variants
+    seen_all = set()
+    for n in c13.SCHED_N:
+        vs = {(s + 7 * k) % c13.NVAR for (m, s, _) in c13.sched_table("quick") if m == n for k in range(n)}
+        seen_all |= vs
+        kinds = [c13.variant(v) for v in vs]
+        assert {k[0] for k in kinds} == set(c13.ORIGIN_KINDS) and {k[1] for k in kinds} == set(c13.AXIS_KINDS)
+        assert {k[2] for k in kinds} == set(c13.TYPE_KINDS)
+    assert seen_all == set(range(c13.NVAR))
+    for n in c13.SCHED_N:   # thorough: every variant at every position
+        for k in range(n):
+            assert {(s + 7 * k) % c13.NVAR for (m, s, _) in c13.sched_table("thorough") if m == n} == set(range(c13.NVAR))
     assert max(sum(p) for p in c13.slot_patterns(8)) == 4
